@@ -172,6 +172,8 @@ def random_raw(rng, sig, star=None):
                 c = [n for n in pool if n not in ns and (n not in used or rng.random() < 0.15)]
                 if c:
                     ns.append(rng.choice(c))
+            if ns and rng.random() < 0.12:
+                ns = ns + [rng.choice(ns)]  # a repeated key inside one display: the last pair wins
             raw.append(["kl", ns])
             used += ns
         elif star:
@@ -249,6 +251,17 @@ def guided_raw(rng, sig):
     return raw
 
 
+def dedup_last(names):
+    """keys of a dict display as CPython (and the binder) see them: a repeated key keeps its
+    LAST value; the binder walks the display in reverse, so the surviving keys are the last
+    occurrences, in source order"""
+    out = []
+    for i, n in enumerate(names):
+        if n not in names[i + 1 :]:
+            out.append(n)
+    return out
+
+
 def is_concrete(raw):
     return not any(r[0] in ("su", "ku") for r in raw)
 
@@ -293,7 +306,7 @@ def enc_raw(raw):
         elif r[0] == "k":
             out.append(f"k {CODE[r[1]]}")
         elif r[0] == "kl":
-            out.append("kl " + " ".join(str(CODE[n]) for n in r[1]))
+            out.append("kl " + " ".join(str(CODE[n]) for n in dedup_last(r[1])))
     return ",".join(out)
 
 
@@ -305,7 +318,7 @@ def flat_counts(raw):
         if r[0] == "k":
             kws.append(r[1])
         elif r[0] == "kl":
-            kws += r[1]
+            kws += list(dict.fromkeys(r[1]))  # CPython: a repeated key keeps its first position (and its last value)
     return npos, kws
 
 
@@ -529,7 +542,7 @@ def expansions(sig, raw):
         if r[0] == "k":
             explicit.append(r[1])
         elif r[0] == "kl":
-            explicit += r[1]
+            explicit += dedup_last(r[1])
     fresh = [n for n in ALLNAMES if n not in explicit and n not in [p[0] for p in sig]][:1]
     cands = [p[0] for p in sig if p[0] not in explicit] + fresh
     # several *xs: only the total matters, but "every star-argument non-empty" needs >= nsu
@@ -653,6 +666,29 @@ def run_modules(batches):
 # ---------------------------------------------------------------------------
 
 
+def dict_display_last_wins():
+    """Which pair of a `**{...}` display with a repeated constant key reaches the parameter?
+    CPython: the last.  Returns the list of shapes on which the FIRST pair won."""
+    I = _impl()
+    S, V, C = I["S"], I["V"], I["Composite"]
+    bad = []
+    shapes = [[("b", 0), ("b", 1)], [("a", 0), ("b", 1), ("a", 2)], [("b", 0), ("a", 1), ("b", 2), ("b", 3)]]
+    for shape in shapes:
+        d = V.DictIncompleteValue(dict, [V.KVPair(V.KnownValue(k), V.KnownValue(("v", i))) for k, i in shape])
+        ctx = S._CanAssignBasedContext(I["ck"])
+        pre = S.preprocess_args([(C(d), I["KWARGS"])], ctx)
+        if pre is None:
+            bad.append({"display": shape, "observed": "rejected"})
+            continue
+        want = {}
+        for k, i in shape:
+            want[k] = i
+        got = {k: c.value.val[1] for k, (dp, c) in pre.keywords.items()}
+        if got != want:
+            bad.append({"display": shape, "observed": got, "expected (CPython: last value wins)": want})
+    return bad
+
+
 def gen_files():
     return {"Kinds.v": tr_kinds.translate(str(lib.REPO)), "BinderShape.v": tr_binder.translate(str(lib.REPO))}
 
@@ -691,10 +727,13 @@ def run(tier: str, replay: str | None = None):
     # 2. cases
     cases = []  # (sig, raw)
     kind_cases = []  # (kind, sig, raw, presets): other callable kinds, end to end
+    replay_ucases = []  # union-of-mappings cases of a replay
     if replay:
         r = json.loads(Path(replay).read_text())
         c = r["input"]
-        if "kind" in c:
+        if any(r[0] == "ux" for r in c["raw"]):
+            replay_ucases.append((c["sig"], c["raw"]))
+        elif "kind" in c:
             kind_cases.append((c["kind"], c["sig"], c["raw"], tuple(c["presets"]) if c.get("presets") else None))
         else:
             cases.append((c["sig"], c["raw"]))
@@ -847,7 +886,11 @@ def run(tier: str, replay: str | None = None):
                 h["concrete"] += 1
                 if acc and py == "ERR":
                     if kind == "partial":
-                        n_partial_unchecked += 1  # partial.__call__(*args, **kwargs) binds; the TypeError is raised by the wrapped call
+                        # known finding: pyanalyze has no model of functools.partial (typeshed's
+                        # partial.__call__(*args, **kwargs)): predicted behaviour = every call accepted
+                        n_partial_unchecked += 1
+                        rep.known("C05-partial-unchecked", KNOWN_TEXT["C05-partial-unchecked"])
+                        hist["known"]["C05-partial-unchecked"] = hist["known"].get("C05-partial-unchecked", 0) + 1
                     else:
                         bad = ("accepted", "CPython raises TypeError")
                 elif not acc and py == "OK":
@@ -857,6 +900,8 @@ def run(tier: str, replay: str | None = None):
                 if acc and not some:
                     if kind == "partial":
                         n_partial_unchecked += 1
+                        rep.known("C05-partial-unchecked", KNOWN_TEXT["C05-partial-unchecked"])
+                        hist["known"]["C05-partial-unchecked"] = hist["known"].get("C05-partial-unchecked", 0) + 1
                     else:
                         bad = ("accepted", "no expansion binds under CPython")
                 elif not acc and some_ne:
@@ -876,6 +921,38 @@ def run(tier: str, replay: str | None = None):
             elif m is not None and kind != "partial" and (not m.startswith("ERR")) != acc:
                 corr.append({"input": payload, "model": canon_model(m), "impl": "accepted" if acc else "rejected"})
 
+    # 5c. `**x` with x a union of closed mappings (preprocess_args' key-by-key merge)
+    n_union = n_union_acc = 0
+    if exe is not None and (not replay or replay_ucases):
+        ucases = replay_ucases or gen_union_cases(rng, 1000 if not thorough else 8000)
+        umodel = lib.ocaml_run(exe, ["U" + enc_sig(s_) + "|" + enc_raw_u(r_) for s_, r_ in ucases])
+        umods = run_union_modules(ucases)
+        for (sig, raw), m, mv in zip(ucases, umodel, umods):
+            acc = impl_bind_union(sig, raw)
+            n_union += 1
+            n_union_acc += int(acc)
+            payload = {"sig": sig, "raw": raw, "def": sig_text(sig), "call": union_call_text(raw)}
+            allb, someb = union_oracle(sig, raw)
+            if acc and not allb:
+                failing.append((payload, "accepted", "a member of the union passed as **kwargs makes the call raise TypeError under CPython"))
+            elif not acc and allb:
+                failing.append((payload, "rejected (incompatible_call)", "every member of the union passed as **kwargs binds under CPython"))
+            if (not m.startswith("ERR")) != acc:
+                corr.append({"input": payload, "model": canon_model(m) if m.startswith("OK") else "ERR", "impl": "accepted" if acc else "rejected"})
+            if mv != acc:
+                e2e_bad.append({"input": payload, "module_accepts": mv, "bind_arguments_accepts": acc})
+
+    # 5d. a repeated constant key inside one `**{...}` display: the last pair must win
+    dup_bad = dict_display_last_wins() if not replay else []
+    if dup_bad:
+        first_wins = all(isinstance(b["observed"], dict) and all(b["observed"][k] == min(i for kk, i in b["display"] if kk == k) for k in b["observed"]) for b in dup_bad)
+        if first_wins:
+            # the unrepaired mechanism: covered_keys is never populated, the FIRST pair wins
+            rep.known("C05-dict-display-first-key-wins", KNOWN_TEXT["C05-dict-display-first-key-wins"])
+            hist["known"]["C05-dict-display-first-key-wins"] = len(dup_bad)
+        else:
+            failing.append(({"sig": [], "raw": [], "def": "def g(a, b)", "call": "g(**{...})", "display": dup_bad[0]["display"]}, str(dup_bad[0]["observed"]), "the last pair of a dict display wins for a repeated key"))
+
     # 6. verdicts
     for payload, obs, exp in failing[:10]:
         rep.violation({"kind": "failing-input", "input": payload, "observed": obs, "expected": exp, "how_to_run": "./check C05 --replay <this file>", "oracle": "CPython executes the call"})
@@ -886,7 +963,7 @@ def run(tier: str, replay: str | None = None):
         # the visitor's verdict is the property's observable: decide against CPython
         for e in e2e_bad[:5]:
             sig, raw = e["input"]["sig"], e["input"]["raw"]
-            if is_concrete(raw):
+            if is_concrete(raw) and not any(r[0] == "ux" for r in raw):
                 py_ok = cpython_call(sig, raw) != "ERR"
                 if py_ok != e["module_accepts"]:
                     rep.violation({"kind": "failing-input", "input": e["input"], "observed": "module " + ("accepts" if e["module_accepts"] else "reports incompatible_call"), "expected": "CPython " + ("binds" if py_ok else "raises TypeError")})
@@ -905,7 +982,7 @@ def run(tier: str, replay: str | None = None):
         rep.harness_error("specification PyBind.py_bind_full disagrees with CPython on " + json.dumps(sb))
 
     rep.coverage.update(
-        evaluations=len(cases) + n_e2e + n_validity + len(kind_cases),
+        evaluations=len(cases) + n_e2e + n_validity + len(kind_cases) + n_union,
         distinct_nontrivial=len(distinct),
         rule="a case = (def signature, call shape); signatures: every def-expressible signature with <=3 parameters (all kinds x default patterns), a sample (thorough: all) with 4, random ones up to 6; "
         "call shapes: positional section of plain positionals / tuple displays / unknown-length *xs, keyword section of keywords (parameter names and strangers) / dict displays / unknown **kw, "
@@ -926,6 +1003,8 @@ def run(tier: str, replay: str | None = None):
         callable_kind_calls=len(kind_cases),
         callable_kind_other_codes=kind_other,
         partial_calls_never_checked=n_partial_unchecked,
+        union_of_mappings_calls=n_union,
+        union_of_mappings_accepted=n_union_acc,
         exhaustive=False,
     )
     rep.assumptions = [
@@ -942,6 +1021,10 @@ def run(tier: str, replay: str | None = None):
 
 
 KNOWN_TEXT = {
+    "C05-dict-display-first-key-wins": "for a dict display with a repeated constant key passed as **kwargs the FIRST pair reaches the parameter (covered_keys is never populated in _preprocess_kwargs_kv_pairs); "
+    "CPython keeps the last: g(1, **{'b': x, 'b': 'x'}) is not reported for def g(a, b: int). Repair proposed: repo_fixes/C05-dict-display-last-key-wins.diff",
+    "C05-partial-unchecked": "calls to a functools.partial object are never checked (pyanalyze sees typeshed's partial.__call__(*args, **kwargs)): "
+    "p = functools.partial(f, 1) for def f(a, b); p() and p(2, 3, 4) are accepted although binding the wrapped function raises TypeError",
     "C05-keyword-after-star-args": "f(*args, b=1) for def f(a, b) is rejected ('may be filled from both *args and a keyword argument') although f(*[1], b=1) binds",
     "C05-positional-after-star-args": "positional arguments after an unknown-length *args are merged into it: f(*xs, 1, 2) for def f(a) is accepted although no expansion binds",
 }
@@ -1091,3 +1174,134 @@ def star_oracle_callable(fobj, eff_sig, raw):
         if some and some_ne:
             break
     return some, some_ne
+
+
+# ---------------------------------------------------------------------------
+# phase 4: `**x` with x a UNION of closed mappings (dict displays)
+#   raw item ["ux", [[names of member 1], [names of member 2], ...]]
+
+
+def gen_union_cases(rng, n):
+    out = []
+    while len(out) < n:
+        sig = random_sig(rng, 5)
+        raw = [r for r in guided_raw(rng, sig, ) if r[0] in ("p", "k")]
+        kws = [r[1] for r in raw if r[0] == "k"]
+        pool = list(dict.fromkeys(kws + [p[0] for p in sig if p[1] in (POK, KO)] + [STRANGERS[0]]))
+        if not pool:
+            continue
+        moved = rng.sample(kws, rng.randint(0, len(kws))) if kws else []
+        raw = [r for r in raw if not (r[0] == "k" and r[1] in moved)]
+        explicit = [r[1] for r in raw if r[0] == "k"]
+        cand = [k for k in pool if k not in explicit] or [STRANGERS[1]]
+        alts = []
+        for _ in range(rng.choice([2, 2, 3])):
+            alt = list(moved)
+            for k in cand:
+                if k not in alt and rng.random() < 0.3:
+                    alt.append(k)
+            if alt and rng.random() < 0.35:
+                alt.pop(rng.randrange(len(alt)))
+            rng.shuffle(alt)
+            alts.append(alt)
+        if rng.random() < 0.1 and explicit:
+            alts[0].append(explicit[0])  # a key also given explicitly: "Multiple values"
+        raw.append(["ux", alts])
+        out.append((sig, raw))
+    return out
+
+
+def enc_raw_u(raw):
+    out = []
+    for r in raw:
+        if r[0] == "ux":
+            out.append("ux " + " / ".join(" ".join(str(CODE[k]) for k in alt) for alt in r[1]))
+        else:
+            out.append(enc_raw([r]))
+    return ",".join(out)
+
+
+def union_call_text(raw, fname="f"):
+    parts = []
+    for r in raw:
+        if r[0] == "p":
+            parts.append("1")
+        elif r[0] == "k":
+            parts.append(f"{r[1]}=1")
+        elif r[0] == "ux":
+            ds = ["{" + ", ".join(f"'{k}': 1" for k in alt) + "}" for alt in r[1]]
+            expr = ds[-1]
+            for i, d in reversed(list(enumerate(ds[:-1]))):
+                expr = f"{d} if c{i} else ({expr})"
+            parts.append(f"**({expr})")
+    return f"{fname}(" + ", ".join(parts) + ")"
+
+
+def impl_bind_union(sig, raw):
+    I = _impl()
+    S, V, C = I["S"], I["V"], I["Composite"]
+    s = impl_signature(sig)
+    args = []
+    i = 0
+    for r in raw:
+        if r[0] == "p":
+            args.append((C(V.KnownValue(("p", i))), None))
+            i += 1
+        elif r[0] == "k":
+            args.append((C(V.KnownValue(("k", r[1]))), r[1]))
+        else:
+            members = [V.DictIncompleteValue(dict, [V.KVPair(V.KnownValue(k), V.KnownValue(("k", k))) for k in alt]) for alt in r[1]]
+            args.append((C(V.MultiValuedValue(members)), I["KWARGS"]))
+    ctx = S._CanAssignBasedContext(I["ck"])
+    pre = S.preprocess_args(args, ctx)
+    if pre is None:
+        return False
+    return s.bind_arguments(pre, ctx) is not None
+
+
+def union_oracle(sig, raw):
+    """(every member binds, some member binds) under CPython"""
+    f = real_function(sig)
+    npos = sum(1 for r in raw if r[0] == "p")
+    explicit = [r[1] for r in raw if r[0] == "k"]
+    res = []
+    for alt in [r for r in raw if r[0] == "ux"][0][1]:
+        if set(alt) & set(explicit) or len(set(alt)) != len(alt):
+            res.append(False)
+        else:
+            res.append(cpython_binds(f, npos, explicit + alt))
+    return all(res), any(res)
+
+
+def run_union_modules(cases, batch=200):
+    import contextlib
+    import io
+
+    from pyanalyze.error_code import ErrorCode
+    from pyanalyze.test_name_check_visitor import TestNameCheckVisitorBase
+
+    verdicts = []
+    for b0 in range(0, len(cases), batch):
+        chunk = cases[b0 : b0 + batch]
+        fn = {}
+        lines = []
+        for sig, raw in chunk:
+            key = json.dumps(sig)
+            if key not in fn:
+                fn[key] = f"f{len(fn)}"
+                lines.append(f"def {fn[key]}({header(sig)}): pass")
+        lines.append("def run(c0: bool, c1: bool, c2: bool):")
+        call_line = {}
+        for i, (sig, raw) in enumerate(chunk):
+            lines.append("    " + union_call_text(raw, fn[json.dumps(sig)]))
+            call_line[len(lines)] = i
+        buf = io.StringIO()
+        with contextlib.redirect_stderr(buf), contextlib.redirect_stdout(buf):
+            errs = TestNameCheckVisitorBase()._run_str("\n".join(lines) + "\n", fail_after_first=False)
+        v = [True] * len(chunk)
+        for e in errs:
+            i = call_line.get(e["lineno"])
+            if i is not None and e["code"] is ErrorCode.incompatible_call:
+                v[i] = False
+        verdicts += v
+    return verdicts
